@@ -437,3 +437,99 @@ func hostnameRules(c *Ctx) {
 	}
 	c.Check(n == 1, "R-CUT", "x509.VerifyHostname", "common-name fallback site found", w.Pos(fn.Pos()), fmt.Sprint(n))
 }
+
+func c30Extras(c *Ctx) {
+	w := c.W
+	var scope []*ssa.Function
+	for _, fn := range w.FuncsInFile("tls/handshake_messages.go") {
+		if fn.Parent() == nil && len(fn.Blocks) > 0 {
+			scope = append(scope, fn)
+		}
+	}
+	sortFns(scope)
+	c.FreshObligations(scope, "handshake message codecs (every decoded element owns its bytes)")
+	// updateBinders keeps the cached encoding in step with the fields: it re-encodes the binder list
+	// with the same builder calls marshal uses
+	if fn := w.Fn("(*z/tls.clientHelloMsg).updateBinders"); fn != nil {
+		keep := func(name string, cc *ssa.CallCommon) bool {
+			return strings.Contains(name, "cryptobyte.") || strings.HasSuffix(name, ".marshalWithoutBinders")
+		}
+		seq := callSeq(fn, keep)
+		for _, an := range fn.AnonFuncs {
+			for _, s := range callSeq(an, keep) {
+				seq = append(seq, an.Name()+":"+s)
+			}
+			for _, an2 := range an.AnonFuncs {
+				for _, s := range callSeq(an2, keep) {
+					seq = append(seq, an2.Name()+":"+s)
+				}
+			}
+		}
+		got := strings.Join(seq, " ; ")
+		want := c30Oracle["updateBinders"]
+		c.Sites++
+		c.Check(got == want, "R-LAYOUT", "tls.clientHelloMsg.updateBinders", "the cached ClientHello is re-encoded as prefix || uint16-prefixed list of uint8-prefixed binders, and its total length is checked", w.Pos(fn.Pos()), "got "+got)
+	} else {
+		c.Undecided("R-LAYOUT", "tls.clientHelloMsg.updateBinders", "anchor", "-", "not found")
+	}
+}
+
+var c30Oracle = map[string]string{
+	"updateBinders": "once:(*tls.clientHelloMsg).marshalWithoutBinders(m) ; once:golang.org/x/crypto/cryptobyte.NewBuilder(m.raw[:len((*tls.clientHelloMsg).marshalWithoutBinders(m))]) ; once:(*golang.org/x/crypto/cryptobyte.Builder).AddUint16LengthPrefixed(golang.org/x/crypto/cryptobyte.NewBuilder(m.raw[:len((*tls.clientHelloMsg).marshalWithoutBinders(m))]),closure:func:(*tls.clientHelloMsg).updateBinders$1) ; once:(*golang.org/x/crypto/cryptobyte.Builder).BytesOrPanic(golang.org/x/crypto/cryptobyte.NewBuilder(m.raw[:len((*tls.clientHelloMsg).marshalWithoutBinders(m))])) ; updateBinders$1:loop:(*golang.org/x/crypto/cryptobyte.Builder).AddUint8LengthPrefixed(b,closure:func:(*tls.clientHelloMsg).updateBinders$1$1) ; updateBinders$1$1:once:(*golang.org/x/crypto/cryptobyte.Builder).AddBytes(b,free:binder)",
+}
+
+func c33Extras(c *Ctx) {
+	w := c.W
+	var scope []*ssa.Function
+	for _, f := range c33Files {
+		for _, fn := range w.FuncsInFile(f) {
+			if fn.Parent() == nil && len(fn.Blocks) > 0 && fn.Signature.Recv() != nil && (fn.Name() == "MarshalJSON" || fn.Name() == "UnmarshalJSON") {
+				scope = append(scope, fn)
+			}
+		}
+	}
+	sortFns(scope)
+	c.FreshObligations(scope, "JSON codecs (every decoded list element owns its storage)")
+	// pkix.Name: the attribute type used for an aux field when decoding is the one that fills that field when encoding
+	mj, uj := w.Fn("(*z/x509/pkix.Name).MarshalJSON"), w.Fn("(*z/x509/pkix.Name).UnmarshalJSON")
+	if mj == nil || uj == nil {
+		c.Undecided("R-TABLE", "pkix.Name", "MarshalJSON / UnmarshalJSON", "-", "not found")
+		return
+	}
+	enc := map[string]string{} // aux field -> oid global
+	for _, b := range mj.Blocks {
+		for _, in := range b.Instrs {
+			st, ok := in.(*ssa.Store)
+			if !ok {
+				continue
+			}
+			fa, ok := st.Addr.(*ssa.FieldAddr)
+			if !ok || !strings.HasPrefix(fieldName(fa), "auxName.") {
+				continue
+			}
+			for _, f := range domFacts(b) {
+				cl := callOf(f.X)
+				if f.Op == "true" && cl != nil && strings.HasSuffix(calleeName(&cl.Call), "ObjectIdentifier).Equal") {
+					if g := globalName(cl.Call.Args[1]); g != "" {
+						enc[fieldLeaf(fieldName(fa))] = g
+					}
+				}
+			}
+		}
+	}
+	n := 0
+	for _, in := range callsIn(uj, "z/x509/pkix.appendATV") {
+		cc := callCommon(in)
+		src, g := Expr(cc.Args[1]), globalName(cc.Args[2])
+		field := ""
+		for f := range enc {
+			if strings.HasPrefix(src, "aux."+f) && (len(src) == len("aux."+f) || src[len("aux."+f)] == '[') {
+				field = f
+			}
+		}
+		n++
+		c.Sites++
+		c.Check(field != "" && enc[field] == g, "R-TABLE", "pkix.Name.UnmarshalJSON", fmt.Sprintf("attribute list #%d built from %s uses the attribute type that fills it when encoding", n, src), w.InstrPos(in), fmt.Sprintf("decoder uses %s, encoder fills it from %s", g, enc[field]))
+	}
+	c.Check(n >= 17 && len(enc) >= 17, "R-TABLE", "pkix.Name", "attribute/field pairs enumerated", "-", fmt.Sprintf("%d decoder sites, %d encoder pairs", n, len(enc)))
+}
